@@ -49,6 +49,8 @@ def tasks(tier, seed):
     shs = shapes.shape_set(tier, seed, quick_n=10, thorough_n=60)
     shs = [s for s in shs if s.ns <= 3 or (tier == 'thorough' and sum(len(g) for gs in s.prefs for g in gs) <= 7)]
     shs.append(wide_shape())
+    # ties of four entries on both sides (ranks read wrongly change cost, degree and profile)
+    shs += [s for s in shapes.corner_shapes() if s.ns == 4 and s.np == 4 and any(len(g) == 4 for gs in s.prefs for g in gs)]
     out = []
     for I in shs:
         fl = [[], ['pc']] + ([['twopl'], ['twopl', 'pc']] if I.lprefs is not None else [])
